@@ -1,7 +1,7 @@
 (* C15 -- results are reproducible and do not depend on the order of the inputs.  Statements only; proofs in Sema/OrderProofs.v
    and Sema/Lookup.v.  Reproducibility itself is a property of the models by construction: they are functions of their input. *)
 From Coq Require Import List Bool Arith Permutation.
-From SliceV Require Import Sema.Lookup Sema.Validate Sema.WellFormed Sema.OrderProofs Sema.Lints Driver.Files Driver.FilesOrder Driver.Main Driver.OrderMisc.
+From SliceV Require Import Sema.Scoped Sema.ScopedProofs Sema.Lookup Sema.Validate Sema.WellFormed Sema.OrderProofs Sema.Lints Driver.Files Driver.FilesOrder Driver.Main Driver.OrderMisc.
 Import ListNotations.
 
 (* the verdict of the rule catalogue (C04's model: accepted iff well-formed) is the same for every order in which the
@@ -38,3 +38,28 @@ Proof. exact levels_order_independent. Qed.
 Theorem C15_outcome_order_independent : forall c ds', Permutation (rc_diags c) ds' ->
   generation_runs (with_diags c ds') = generation_runs c /\ gen_results (with_diags c ds') = gen_results c /\ exit_status (with_diags c ds') = exit_status c.
 Proof. exact outcome_order_independent. Qed.
+
+(* The lookup table over several files (Sema/Scoped.v: modules, definitions, members and their members, entered in the parser's
+   order, a later entry replacing an earlier one).  The redefinition pass is silent exactly when no entity shares its scoped
+   identifier with a module, definitions have distinct scoped identifiers and names are unique within each container ... *)
+Theorem C15_redefinition_pass_silent_iff : forall fs, Scoped.redef_report fs = [] <-> ScopedProofs.names_ok fs.
+Proof. exact redef_report_silent_iff. Qed.
+(* ... which does not depend on the order of the files ... *)
+Theorem C15_redefinition_verdict_order_independent : forall fs fs', Permutation fs fs' -> (redef_report fs = [] <-> redef_report fs' = []).
+Proof. exact redef_verdict_order_independent. Qed.
+(* ... and then whatever is looked up is found the same for every order of the files: the premise of C15_lookup_order_independent
+   is met by every program the pass lets through (modules re-opened in several files are one module) *)
+Theorem C15_lookup_of_accepted_files_order_independent : forall fs fs' k,
+  redef_report fs = [] -> Permutation fs fs' -> sc_lookup k (sc_table fs) = sc_lookup k (sc_table fs').
+Proof. exact lookup_order_independent. Qed.
+(* the pass has to report a member that shares its scoped identifier with a module (fix f3561ee): otherwise the lookup of
+   A::I::op depends on the order of the files *)
+Theorem C15_member_module_collision : redef_report [f_iface; f_module] = [3] /\ redef_report [f_module; f_iface] = [3] /\
+  sc_lookup [1; 2; 3] (sc_table [f_iface; f_module]) <> sc_lookup [1; 2; 3] (sc_table [f_module; f_iface]).
+Proof.
+  split; [exact (proj1 member_module_collision_reported)|]. split; [exact (proj2 member_module_collision_reported)|].
+  destruct member_module_collision_order_dependent as [-> ->]. discriminate.
+Qed.
+(* every entity of a file with a module is entered in the sc_table *)
+Theorem C15_every_entity_entered : forall f k, In k (entity_keys f) -> exists p, In (k, ScEntity (sf_id f) p) (file_entries f).
+Proof. exact every_entity_entered. Qed.
